@@ -178,6 +178,9 @@ struct Arena {
     reserve_calls: u64,
     drop_calls: u64,
     moved: u64,
+    /// what the owner of a vector that is being released expects its drop_fn to be told:
+    /// (data, len) of the vector at that moment
+    expect_drop: Option<(usize, usize)>,
 }
 
 static ARENA: Mutex<Option<Arena>> = Mutex::new(None);
@@ -187,7 +190,7 @@ fn arena<R>(f: impl FnOnce(&mut Arena) -> R) -> R {
     untracked(|| {
         let mut g = ARENA.lock().unwrap_or_else(|p| p.into_inner());
         if g.is_none() {
-            *g = Some(Arena { blocks: BTreeMap::new(), errors: Vec::new(), reserve_calls: 0, drop_calls: 0, moved: 0 });
+            *g = Some(Arena { blocks: BTreeMap::new(), errors: Vec::new(), reserve_calls: 0, drop_calls: 0, moved: 0, expect_drop: None });
         }
         f(g.as_mut().unwrap())
     })
@@ -260,6 +263,11 @@ unsafe extern "C" fn foreign_drop<T>(data: *mut T, len: usize, capacity: usize) 
     }
     let known = arena(|a| {
         a.drop_calls += 1;
+        if let Some((d, l)) = a.expect_drop.take() {
+            if d == data as usize && l != len {
+                a.errors.push(format!("drop_fn: told len={} for a vector that held {} element(s) when it was released (the module's own clean-up of its elements depends on it)", len, l));
+            }
+        }
         a.blocks.get(&(data as usize)).map(|r| r.0)
     });
     match known {
@@ -304,7 +312,11 @@ fn new_foreign<T: Elem>(items: Vec<T>, spare: usize, owned: bool) -> CVec<T> {
 /// the element and buffer books).
 fn release<T: Elem>(v: CVec<T>) {
     let cv = view_of(&v);
+    if !cv.data.is_null() {
+        arena(|a| a.expect_drop = Some((cv.data as usize, cv.len)));
+    }
     track(|| drop(v));
+    arena(|a| a.expect_drop = None);
     if cv.drop_fn.is_none() {
         unsafe { foreign_drop(cv.data, cv.len, cv.capacity) };
     }
